@@ -7,6 +7,8 @@ RULE = ('validator: PtrTrampoline (the real fixOrigin path) is run, without dive
         'execution monitor: a generated zoo of Go functions (leaf, wrapper, two early branches, 256B-8KiB frames, methods, variadic, float/string/many args, recursive, '
         'two results, deferred) is mocked through the public API with Origin(&placeholder).Apply(cb -> 3*origin+1) and called warm, on fresh goroutines and at every depth of a '
         '64-byte-step recursion sweep across stack-growth boundaries; result and callback count must be those of the unmocked function; '
+        'synthetic zoo: byte-exact shapes (RIP-relative compare with imm8/imm32, two short branches, short branch then CALL/LEA, branch outside the widening table, E9/E8 first, '
+        'MOV/LEA rip-relative, recursive call to the entry, loop at the entry, function shorter than the jump) written into a harness mapping and executed before/while/after mocking, placeholder before and after; '
         'distinct = distinct copied-prefix opcode shapes + refusal reasons + zoo (shape, placeholder side, stack-check) classes')
 
 
@@ -18,12 +20,23 @@ def run(ctx):
     files.update(core.dir_files('harness/c03', 'internal/patch'))
     files.update(core.dir_files('harness/c03/pha', 'zzverif/c03pha'))
     b = ctx.build('c03', core.MODPATH + '/internal/patch', files)
-    ch = ctx.child(b, run='TestC03Validator', timeout=1200)
+    ch = ctx.child(b, run='TestC03Validator$', timeout=1200)
     ctx.absorb(ch, what='TestC03Validator')
+    # synthetic zoo: byte-exact shapes executed, one child process per (shape, placeholder side)
+    cnt = ctx.child(b, run='TestC03Synth', timeout=120, env={'VERIF_C03_SHAPE': 'count'}, label='synth-count')
+    nshapes = int(((cnt.report or {}).get('stats') or {}).get('max:synthetic_shapes', 0))
+    if nshapes == 0:
+        ctx.inconclusive.append('synthetic zoo: could not count shapes')
+    jobs = []
+    for i in range(nshapes):
+        for side in ('before', 'after'):
+            jobs.append(dict(binary=b, run='TestC03Synth', timeout=120, what='synthetic shape %d placeholder %s' % (i, side),
+                             crash_key='C03/synthetic-zoo-crash', env={'VERIF_C03_SHAPE': str(i), 'VERIF_C03_PHSIDE': side}))
+    ctx.parallel(jobs, parallel=8)
     if ctx.thorough:
         # second population: race-instrumented bodies have different prologues (racefuncenter calls)
         br = ctx.build('c03race', core.MODPATH + '/internal/patch', files, race=True)
-        ch = ctx.child(br, run='TestC03Validator', timeout=2400, label='race-population')
+        ch = ctx.child(br, run='TestC03Validator$', timeout=2400, label='race-population')
         ctx.absorb(ch, what='TestC03Validator[race-instrumented population]')
     # execution monitor: generated zoo through the public API
     gdir = os.path.join(core.BUILD, 'gen', 'c03', str(ctx.seed))
